@@ -26,6 +26,7 @@ type zzWorld struct {
 	accts  *zzAccts
 	stakes []*zzStakeRec
 	height int64
+	checkOnly bool // transactions are run in CheckTx mode (Exec == false)
 }
 
 // zzSeed builds a committed state: delegatees A0 and A1 (each optional), each
@@ -74,8 +75,9 @@ func zzSeed(ndeleg int, withFrozen bool) *zzWorld {
 func (w *zzWorld) txctx(from, to int, typ int32, amt *uint256.Int, payload ctrlertypes.ITrxPayload, txhash []byte) *ctrlertypes.TrxContext {
 	tx := &ctrlertypes.Trx{Version: 1, Time: 1, Nonce: 0, From: zzAddr(from), To: zzAddr(to), Amount: amt,
 		Gas: 10, GasPrice: w.gov.GasPrice(), Type: typ, Payload: payload}
-	return &ctrlertypes.TrxContext{Exec: true, Tx: tx, TxHash: txhash, Height: w.height,
-		SenderPubKey: zzPub(from), Sender: w.accts.FindAccount(zzAddr(from), true), Receiver: w.accts.FindOrNewAccount(zzAddr(to), true),
+	exec := !w.checkOnly
+	return &ctrlertypes.TrxContext{Exec: exec, Tx: tx, TxHash: txhash, Height: w.height,
+		SenderPubKey: zzPub(from), Sender: w.accts.FindAccount(zzAddr(from), exec), Receiver: w.accts.FindOrNewAccount(zzAddr(to), exec),
 		GovHandler: w.gov, AcctHandler: w.accts, StakeHandler: w.sc}
 }
 
@@ -169,7 +171,8 @@ func (w *zzWorld) doStaking(txhash []byte, small bool) {
 		return
 	}
 	if w.exec(w.txctx(from, to, ctrlertypes.TRX_STAKING, amt, nil, txhash)) {
-		w.stakes = append(w.stakes, &zzStakeRec{hash: txhash, from: from, to: to, power: p, live: true})
+		// a transaction that is only checked creates nothing; the record stays "dead"
+		w.stakes = append(w.stakes, &zzStakeRec{hash: txhash, from: from, to: to, power: p, live: !w.checkOnly})
 		zzverif.Reach("staking ok")
 	} else {
 		zzverif.Reach("staking rejected")
@@ -238,4 +241,74 @@ func ZZ_C11_B3() {
 	}
 	w.checkInvariant("committed", true)
 	zzverif.Reach("B3 end")
+}
+
+// zzBook is what the consensus side of the bookkeeping looks like.
+type zzBook struct {
+	total, self [2]int64
+	n           [2]int
+	present     [2]bool
+	frozen      []int64
+}
+
+func (w *zzWorld) book(committed bool) *zzBook {
+	b := &zzBook{}
+	for i := 0; i < 2; i++ {
+		var d *Delegatee
+		if committed {
+			d, _ = w.sc.delegateeLedger.Read(ledger.ToLedgerKey(zzAddr(i)))
+		} else {
+			d, _ = w.sc.delegateeLedger.GetFinality(ledger.ToLedgerKey(zzAddr(i)))
+		}
+		if d != nil {
+			b.present[i], b.total[i], b.self[i], b.n[i] = true, d.TotalPower, d.SelfPower, len(d.Stakes)
+		}
+	}
+	for k := 0; k < 12; k++ {
+		var f *Stake
+		if committed {
+			f, _ = w.sc.frozenLedger.Read(ledger.ToLedgerKey(zzHash(k)))
+		} else {
+			f, _ = w.sc.frozenLedger.GetFinality(ledger.ToLedgerKey(zzHash(k)))
+		}
+		if f != nil {
+			b.frozen = append(b.frozen, f.Power)
+		} else {
+			b.frozen = append(b.frozen, -1)
+		}
+	}
+	return b
+}
+
+func zzSameBook(a, b *zzBook, tag string) {
+	for i := 0; i < 2; i++ {
+		zzverif.Assert(a.present[i] == b.present[i] && a.total[i] == b.total[i] && a.self[i] == b.self[i] && a.n[i] == b.n[i], tag+": delegatee record unchanged")
+	}
+	for k := range a.frozen {
+		zzverif.Assert(a.frozen[k] == b.frozen[k], tag+": unbonding ledger unchanged")
+	}
+}
+
+// ZZ_C11_B4: a staking / unstaking transaction that is only *checked* (mempool,
+// Exec == false) never reaches the consensus bookkeeping: neither the in-block
+// view nor what the next Commit persists.
+func ZZ_C11_B4() {
+	w := zzSeed(2, true)
+	b0 := w.book(false)
+	w.checkOnly = true
+	switch zzverif.Choose("op", 2) {
+	case 0:
+		w.doStaking(zzHash(8), false)
+	case 1:
+		w.doUnstaking(zzHash(8), false)
+	}
+	w.checkOnly = false
+	zzSameBook(b0, w.book(false), "B4 after a checked-only tx")
+	w.checkInvariant("B4 after a checked-only tx", false)
+	if _, _, xerr := w.sc.Commit(); xerr != nil {
+		zzverif.Assert(false, "Commit failed")
+	}
+	zzSameBook(b0, w.book(true), "B4 committed after a checked-only tx")
+	w.checkInvariant("B4 committed", true)
+	zzverif.Reach("B4 end")
 }
